@@ -1189,4 +1189,44 @@ theorem weight_used_exactly (pre suf : List Nat) (d : Nat) (hd : 1 < d) (hsuf : 
   rw [pick, pick] at key
   exact key
 
+/-! ## Pass 7 -/
+
+/-- **…and the same for scalar residual components (`d = 1`)**, where the documented weight has shape `suf ++ [1, 1]`:
+two weights whose expansions act identically on every vector agree in every entry. Together with `weight_used_exactly`
+this covers every documented weight shape. -/
+theorem weight_used_exactly_d1 (pre suf : List Nat) (hsuf : 0 < prod suf) (hpre : 0 < prod pre) (w w' : Nat → ℝ)
+    (h : ∀ B B', wblocks (pre ++ suf ++ [1]) (suf ++ [1, 1]) w = some B →
+      wblocks (pre ++ suf ++ [1]) (suf ++ [1, 1]) w' = some B' →
+      ∀ (v : Nat → ℝ) (r : Nat), ∑ c ∈ range (prod suf * prod pre), blockDiag [B] r c * v c
+        = ∑ c ∈ range (prod suf * prod pre), blockDiag [B'] r c * v c)
+    (s : Nat) (hs : s < prod suf) : w s = w' s := by
+  have ht : s < prod suf * prod pre := lt_of_lt_of_le hs (Nat.le_mul_of_pos_right _ hpre)
+  obtain ⟨B, hB, e⟩ := weight_expand_d1 pre suf hsuf w (fun _ => 1) s ht
+  obtain ⟨B', hB', e'⟩ := weight_expand_d1 pre suf hsuf w' (fun _ => 1) s ht
+  obtain ⟨B₀, hB₀, hcnt, hh, hw, -, -⟩ := wblocks_documented_eq1 pre suf hsuf w
+  obtain ⟨B₀', hB₀', hcnt', hh', hw', -, -⟩ := wblocks_documented_eq1 pre suf hsuf w'
+  have eB : B₀ = B := Option.some.inj (hB₀.symm.trans hB)
+  have eB' : B₀' = B' := Option.some.inj (hB₀'.symm.trans hB')
+  subst eB eB'
+  have c1 : wCols [B₀] = prod suf * prod pre := by simp [wCols, total, WBlocks.cols, hcnt, hw]
+  have c2 : wCols [B₀'] = prod suf * prod pre := by simp [wCols, total, WBlocks.cols, hcnt', hw']
+  have key := h B₀ B₀' hB hB' (fun _ => 1) s
+  rw [c1] at e; rw [c2] at e'
+  rw [e, e', Nat.mod_eq_of_lt hs] at key
+  simpa using key
+
+/-- non-vacuity: the hypotheses can be discharged (residual shape `[3, 2, 1]`, weight shape `[2, 1, 1]`; the premise holds
+for `w' = w`), and — contrapositive — the weights `(2, 3)` and `(2, 3 + 10⁻⁶)` have expansions that act differently. -/
+example (w : Nat → ℝ) : w 1 = w 1 :=
+  weight_used_exactly_d1 [3] [2] (by simp [prod]) (by simp [prod]) w w
+    (fun B B' h1 h2 v r => by rw [h1] at h2; cases h2; rfl) 1 (by simp [prod])
+
+example : ¬ ∀ B B', wblocks ([3] ++ [2] ++ [1]) ([2] ++ [1, 1]) (fun s => if s = 0 then (2 : ℝ) else 3) = some B →
+      wblocks ([3] ++ [2] ++ [1]) ([2] ++ [1, 1]) (fun s => if s = 0 then (2 : ℝ) else 3 + 1 / 1000000) = some B' →
+      ∀ (v : Nat → ℝ) (r : Nat), ∑ c ∈ range (prod [2] * prod [3]), blockDiag [B] r c * v c
+        = ∑ c ∈ range (prod [2] * prod [3]), blockDiag [B'] r c * v c := by
+  intro h
+  have := weight_used_exactly_d1 [3] [2] (by simp [prod]) (by simp [prod]) _ _ h 1 (by simp [prod])
+  norm_num at this
+
 end PP.GNStep
